@@ -17,8 +17,8 @@ RULES = {
     'A2': ownership.rule_A2, 'A5': ownership.rule_A5, 'A6': ownership.rule_A6, 'A7': ownership.rule_A7, 'A8': ownership.rule_A8,
     'L': contracts.rule_L, 'K': contracts.rule_K, 'E1': contracts.rule_E1, 'E2': contracts.rule_E2, 'E3': contracts.rule_E3,
     'E6': contracts.rule_E6, 'E7': contracts.rule_E7, 'D2': contracts.rule_D2, 'E9': contracts.rule_E9, 'E4': contracts.rule_E4,
-    'E10': contracts.rule_E10, 'E11': contracts.rule_E11, 'BYTEWIN': contracts.rule_BYTEWIN, 'OPT': contracts.rule_OPT, 'OPTDEP': contracts.rule_OPTDEP, 'EQ1': contracts.rule_EQ1, 'ITER1': contracts.rule_ITER1,
-    'C': stream.rule_C, 'POSW': stream.rule_POSW, 'B1': stream.rule_B1, 'POST': stream.rule_POST, 'RB': stream.rule_RB, 'NOMOVE': stream.rule_NOMOVE,
+    'E10': contracts.rule_E10, 'E11': contracts.rule_E11, 'BYTEWIN': contracts.rule_BYTEWIN, 'SIB': contracts.rule_SIB, 'SGN0': contracts.rule_SGN0, 'IDEM': contracts.rule_IDEM, 'OPT': contracts.rule_OPT, 'OPTDEP': contracts.rule_OPTDEP, 'EQ1': contracts.rule_EQ1, 'ITER1': contracts.rule_ITER1,
+    'C': stream.rule_C, 'POSW': stream.rule_POSW, 'B1': stream.rule_B1, 'POST': stream.rule_POST, 'RB': stream.rule_RB, 'NOMOVE': stream.rule_NOMOVE, 'SELFOP': stream.rule_SELFOP,
     'I': dims.rule_I, 'B3': dims.rule_B3, 'N2a': dims.rule_N2a, 'IDX': dims.rule_IDX, 'TY1': dims.rule_TY1, 'XDT': dims.rule_XDT, 'SCALE': dims.rule_SCALE,
     'B2': mutate.rule_B2, 'WB': mutate.rule_WB, 'N1': mutate.rule_N1, 'N2': mutate.rule_N2, 'N5': mutate.rule_N5, 'D5': mutate.rule_D5, 'RNG': mutate.rule_RNG, 'IDX1': mutate.rule_IDX1, 'SLN': mutate.rule_SLN,
     'E5': ingest.rule_E5, 'CHOKE': ingest.rule_CHOKE, 'LV': ingest.rule_LV, 'WIN': ingest.rule_WIN,
@@ -55,7 +55,7 @@ def _p(pid, rules, decided, declined, explanation, level='other', floors=None, a
                       floors=floors or {}, assumptions=list(assumptions) + COMMON_ASSUMPTIONS, exhaustive=exhaustive)
 
 
-_p('C18', ['H1', 'H3', 'E10', 'H4', 'F2', 'MEMO'],
+_p('C18', ['H1', 'H3', 'E10', 'H4', 'F2', 'MEMO', 'SGN0'],
    decided=["every struct-style code and endianness prefix maps to the dtype struct defines (regex classes = "
             "replacement tables = size table = struct.calcsize; prefix branches exhaustive)",
             "native-endian aliases point at the le/be dtype in the matching sys.byteorder branch (both branches, "
@@ -98,7 +98,7 @@ _p('C09', ['F1', 'F2', 'F3', 'F4', 'F5', 'G1', 'N4', 'A1', 'A4', 'MEMO'],
                "of the lsb0/msb0 tables in Options.set_lsb0.",
    floors={'F1': 8, 'G1': 13})
 
-_p('C11', ['H5a', 'H5b', 'H5c', 'H2', 'SCALE'],
+_p('C11', ['H5a', 'H5b', 'H5c', 'H2', 'SCALE', 'SGN0'],
    decided=["every code of p3binary8, p4binary8, e5m2/e4m3 (both overflow modes), e3m2, e2m3, e2m1 decodes to the value "
             "its format defines (sign, exponent, mantissa, subnormals, zeros, infinities, NaNs): all entries of the 9 "
             "decode tables against an exact model",
@@ -148,7 +148,7 @@ _p('C01', ['K', 'E6', 'J2', 'A10', 'A1', 'A11', 'SLN', 'IDX1'],
    explanation="Class-provenance typing of every return of the operator/slicing methods per concrete class; sibling guard "
                "comparison; call-graph reachability to field reads.")
 
-_p('C06', ['C', 'POSW', 'B1', 'POST', 'RB', 'NOMOVE', 'E7', 'D2', 'J1', 'J2', 'OPT', 'CHOKE', 'SCALE', 'STALE', 'A11'],
+_p('C06', ['C', 'POSW', 'B1', 'POST', 'RB', 'NOMOVE', 'E7', 'D2', 'J1', 'J2', 'OPT', 'CHOKE', 'SCALE', 'STALE', 'A11', 'SELFOP'],
    decided=["0 <= pos <= len in its structural part: _pos is definitely assigned on every escaping stream object; every "
             "_pos write is 0, the length, a validated/restored/found position, pos+len after a validated pos, or a "
             "bounded/checked increment; every effect that can change a BitStream's length is covered by stream-level "
@@ -168,7 +168,7 @@ _p('C06', ['C', 'POSW', 'B1', 'POST', 'RB', 'NOMOVE', 'E7', 'D2', 'J1', 'J2', 'O
                "name, post-condition table keyed by method.",
    floors={'POSW': 25, 'B1': 18})
 
-_p('C07', ['E1', 'E2', 'E3', 'E11', 'OPT', 'MEMO', 'BYTEWIN'],
+_p('C07', ['E1', 'E2', 'E3', 'E11', 'OPT', 'MEMO', 'BYTEWIN', 'SIB'],
    decided=["an empty pattern raises ValueError in find, rfind, findall, split, replace (and `in`/readto by delegation)",
             "an invalid [start, end) raises: every public function with start/end validates them through _validate_slice "
             "(or forwards them unchanged to one that does) before any other use",
@@ -218,7 +218,7 @@ _p('C13', ['HASH', 'J1', 'J2', 'D3', 'L', 'G3', 'EQ1', 'A7', 'A1'],
    explanation="MRO resolution of __hash__/__eq__/__ne__ per class, field-dependence reachability, handler check of the "
                "promotion TypeError.")
 
-_p('C16', ['A1', 'A3', 'A5', 'A8', 'A10', 'A11', 'E6', 'K', 'C', 'L', 'G3', 'POSW', 'F1'],
+_p('C16', ['A1', 'A3', 'A5', 'A8', 'A10', 'A11', 'E6', 'K', 'C', 'L', 'G3', 'POSW', 'F1', 'IDEM', 'D5'],
    decided=["operands are never modified by the non-in-place forms, including when both operands are the same object: no "
             "self store effect in the public operators of the immutable classes; mutated temporaries own fresh stores; "
             "BitStore-level binary operators and _copy build new stores",
@@ -231,7 +231,7 @@ _p('C16', ['A1', 'A3', 'A5', 'A8', 'A10', 'A11', 'E6', 'K', 'C', 'L', 'G3', 'POS
    explanation="Effect summaries per public operator, provenance of mutated temporaries, sibling guard agreement, "
                "result-class typing.")
 
-_p('C03', ['B2', 'WB', 'N1', 'B1', 'E2', 'E11', 'OPT', 'G5', 'A3', 'F2', 'RNG', 'IDX1'],
+_p('C03', ['B2', 'WB', 'N1', 'B1', 'E2', 'E11', 'OPT', 'G5', 'A3', 'F2', 'RNG', 'IDX1', 'SIB', 'SELFOP', 'IDEM'],
    decided=["an invalid position, range or value raises and leaves the content as it was: in every public mutator of "
             "BitArray/BitStream no explicit raise (directly, or in a loop through a raising callee) is reachable after the "
             "first change of self (operations over an iterable of positions exempt, by the property's wording)",
@@ -246,7 +246,7 @@ _p('C03', ['B2', 'WB', 'N1', 'B1', 'E2', 'E11', 'OPT', 'G5', 'A3', 'F2', 'RNG', 
                "for write loops from the validated window, dominating-guard facts for helper asserts.",
    floors={'B2': 40})
 
-_p('C14', ['I', 'IDX', 'TY1', 'XDT', 'B3', 'B2', 'N2a', 'A9', 'N4', 'MEMO'],
+_p('C14', ['I', 'IDX', 'TY1', 'XDT', 'B3', 'B2', 'N2a', 'A9', 'N4', 'MEMO', 'SGN0'],
    decided=["item i occupies bits [i*w, (i+1)*w) with w in bits for every fixed-length dtype incl. byte-multiplier ones: "
             "bit counts (len of data, Dtype.bitlength, itemsize), unit counts (Dtype.length) and item counts are never "
             "mixed in array_.py (three-sorted dimension analysis of every arithmetic, comparison, slice bound, position)",
@@ -262,7 +262,7 @@ _p('C14', ['I', 'IDX', 'TY1', 'XDT', 'B3', 'B2', 'N2a', 'A9', 'N4', 'MEMO'],
    explanation="Dimension (unit) analysis over array_.py, atomicity path rule for in-place helpers, guard check on the "
                "only writer of Array._dtype.")
 
-_p('C20', ['M', 'D1', 'D5', 'N1', 'N2', 'N2a', 'N3', 'N4', 'N5', 'A5', 'B1', 'POSW', 'E7', 'E8', 'H1', 'OPT', 'A1'],
+_p('C20', ['M', 'D1', 'D5', 'N1', 'N2', 'N2a', 'N3', 'N4', 'N5', 'A5', 'B1', 'POSW', 'E7', 'E8', 'H1', 'OPT', 'A1', 'SELFOP'],
    decided=["never an internal error class: AttributeError (every self.<attr> of every method resolves in every concrete "
             "class), AssertionError (29 asserts: facts at public call sites or reviewed reason), ZeroDivisionError "
             "(all divisions), KeyError (struct-code regexes cover the table lookups), NameError (all globals "
@@ -276,7 +276,7 @@ _p('C20', ['M', 'D1', 'D5', 'N1', 'N2', 'N2a', 'N3', 'N4', 'N5', 'A5', 'B1', 'PO
                "resolution, global-write census.",
    floors={'M': 1000, 'D1': 150, 'N1': 20, 'N2': 20})
 
-_p('C02', ['H4', 'H2', 'H3', 'LV', 'OPTDEP', 'A7', 'F2', 'F5', 'INTEX', 'SCALE'],
+_p('C02', ['H4', 'H2', 'H3', 'LV', 'OPTDEP', 'A7', 'F2', 'F5', 'INTEX', 'SCALE', 'SGN0'],
    decided=["every creation route (constructor keyword, property assignment, token string, Dtype.build, pack, Array "
             "element) and every reading route (property, property with length, Dtype.parse, unpack, read) dispatches "
             "through the registry's set/get/read function for the name, so routes cannot disagree",
